@@ -75,7 +75,12 @@ class SocketSpawn(SpawnBase):
             return
 
         self.flush()
-        self.socket.shutdown(socket.SHUT_RDWR)
+        try:
+            self.socket.shutdown(socket.SHUT_RDWR)
+        except OSError:
+            # The peer is already gone (e.g. connection reset); there is
+            # nothing left to shut down, but the descriptor must still go.
+            pass
         self.socket.close()
         self.child_fd = -1
         self.closed = True
